@@ -217,11 +217,13 @@ both('C19', 'c19_to_prim', NT_Q, NT_T, unwind=lambda i: max(i.n, 16) + 2, group=
 DD = {'u8': 'u16', 'u16': 'u32', 'u32': 'u64', 'u64': 'u128'}
 for i, tier, cap in ((I(8, 1), 'quick', 300), (I(8, 2), 'quick', 900), (I(16, 1), 'thorough', 1800)):
     for part in ('ov', 'wide', 'proj'):
-        add(H('C02', f"c02_x_u_{part}_{i.tag}", 'c02_x_u', f"{i.n + 2}, {i.U}, {i.digit}, {i.n}, {part}", tier=tier, cap=cap, inst=i.label,
+        add(H('C02', f"c02_x_u_{part}_{i.tag}", 'c02_x_u', f"{i.n + 2}, {i.U}, {i.digit}, {i.n}, {part}", tier=tier if (part == 'ov' or i.bits == 8) else 'thorough',
+              cap=cap if (part == 'ov' or i.bits == 8) else 5400, core=(part == 'ov' or i.bits == 8), inst=i.label,
               funcs={'ov': 'BUint overflowing_mul', 'wide': 'BUint widening_mul, carrying_mul', 'proj': 'BUint checked/wrapping/saturating/strict/unchecked_mul vs overflowing_mul'}[part],
               bound=f'all operand pairs (exact multiplier, {i.bits} bits); unwind {i.n + 2}'))
     for part in ('ov', 'proj'):
-        add(H('C02', f"c02_x_i_{part}_{i.tag}", 'c02_x_i', f"{i.n + 2}, {i.I}, {i.digit}, {i.n}, {part}", tier=tier, cap=cap, inst=i.label,
+        add(H('C02', f"c02_x_i_{part}_{i.tag}", 'c02_x_i', f"{i.n + 2}, {i.I}, {i.digit}, {i.n}, {part}", tier=tier if (part == 'ov' or i.bits == 8) else 'thorough',
+              cap=cap if (part == 'ov' or i.bits == 8) else 5400, core=(part == 'ov' or i.bits == 8), inst=i.label,
               funcs={'ov': 'BInt overflowing_mul, saturating_mul', 'proj': 'BInt checked/wrapping/strict/unchecked_mul vs overflowing_mul'}[part],
               bound=f'all operand pairs (exact multiplier, {i.bits} bits); unwind {i.n + 2}'))
     add(H('C02', f"c02_strict_panic_{i.tag}", 'c02_strict_panic', f"{i.n + 2}, {i.U}, {i.I}, {i.digit}, {i.n}", tier=tier, cap=cap, inst=i.label, kind='panic',
@@ -260,16 +262,25 @@ def c03_set(i, gen, tier, cap, path='all', signed=True, unsigned=True, tagx=''):
     pth = '' if path == 'all' else '_' + path
     bnd = ('all operand pairs' if gen == 'any' else 'every digit over the boundary alphabet {0,1,2,B/2-1,B/2,B/2+1,B-2,B-1}') + \
           ({'all': '', 'small': ' with a one-digit divisor or dividend <= divisor', 'knuth': ' with a multi-digit divisor below the dividend (Knuth D)'}[path])
+    PARTS = (('a', 'true, false, false', 'const div/rem, checked_div/rem(+euclid), div_euclid/rem_euclid'),
+             ('b', 'false, true, false', 'wrapping_ and overflowing_ div/rem(+euclid)' ),
+             ('c', 'false, false, true', 'saturating_div, strict_div/rem(+euclid), div_floor, div_ceil, next_multiple_of, checked_next_multiple_of'))
+    IPARTS = (('a', 'true, false, false', 'const div/rem, checked/wrapping/overflowing/saturating/strict div+rem; MIN / -1 projections'),
+              ('b', 'false, true, false', 'div_euclid/rem_euclid in plain, checked, wrapping, overflowing, strict form'),
+              ('c', 'false, false, true', 'div_floor, div_ceil, next_multiple_of, checked_next_multiple_of'))
+    small = gen == 'any' and i.bits <= 8
     if unsigned:
         add(H('C03', f"c03_u_main{g}{pth}_{i.tag}", 'c03_u_main', f"{i.n + 2}, {i.U}, {i.digit}, {i.n}, {gen}, {_x(i, False)}, {path}", tier=tier, cap=cap,
-              inst=i.label, funcs='BUint / and % (div_rem_unchecked, div_rem_digit, basecase_div_rem)', bound=bnd + '; postcondition n = q*d + r, r < d', core=(gen == 'any' and i.bits <= 8)))
-        add(H('C03', f"c03_u_proj{g}{pth}_{i.tag}", 'c03_u_proj', f"{i.n + 3}, {i.U}, {i.digit}, {i.n}, {gen}, {path}", tier=tier, cap=cap, inst=i.label,
-              funcs='BUint checked/wrapping/overflowing/saturating/strict div+rem (+euclid), div_floor, div_ceil, next_multiple_of, checked_next_multiple_of', bound=bnd, core=False))
+              inst=i.label, funcs='BUint / and % (div_rem_unchecked, div_rem_digit, basecase_div_rem)', bound=bnd + '; postcondition n = q*d + r, r < d', core=small, mem_gb=28))
+        for pn, pargs, pf in PARTS:
+            add(H('C03', f"c03_u_proj{pn}{g}{pth}_{i.tag}", 'c03_u_proj', f"{i.n + 3}, {i.U}, {i.digit}, {i.n}, {gen}, {path}, {pargs}", tier=tier if small else 'thorough',
+                  cap=cap if small else max(cap, 3600), inst=i.label, funcs='BUint ' + pf + ' relative to / and %', bound=bnd, core=False, mem_gb=28))
     if signed and path == 'all':
         add(H('C03', f"c03_i_main{g}_{i.tag}", 'c03_i_main', f"{i.n + 2}, {i.I}, {i.digit}, {i.n}, {gen}, {_x(i, True)}", tier=tier, cap=cap, inst=i.label,
-              funcs='BInt / and % (sign handling around the unsigned algorithm)', bound=bnd + ' except MIN / -1; postcondition with the sign rule', core=(gen == 'any' and i.bits <= 8)))
-        add(H('C03', f"c03_i_proj{g}_{i.tag}", 'c03_i_proj', f"{i.n + 3}, {i.I}, {i.digit}, {i.n}, {gen}", tier=tier, cap=cap, inst=i.label,
-              funcs='BInt checked/wrapping/overflowing/saturating/strict div+rem (+euclid), div_floor, div_ceil, next_multiple_of, MIN / -1 projections', bound=bnd, core=False))
+              funcs='BInt / and % (sign handling around the unsigned algorithm)', bound=bnd + ' except MIN / -1; postcondition with the sign rule', core=small, mem_gb=28))
+        for pn, pargs, pf in IPARTS:
+            add(H('C03', f"c03_i_proj{pn}{g}_{i.tag}", 'c03_i_proj', f"{i.n + 3}, {i.I}, {i.digit}, {i.n}, {gen}, {pargs}", tier=tier if small else 'thorough',
+                  cap=cap if small else max(cap, 3600), inst=i.label, funcs='BInt ' + pf, bound=bnd, core=False, mem_gb=28))
 
 
 c03_set(I(8, 1), 'any', 'quick', 600)
@@ -314,19 +325,19 @@ for tier, insts in (('quick', C04_SQ), ('thorough', C04_ST)):
                           bound='all values; amount drawn as i128 and truncated to each of the 12 amount types'))
 for i, tier, cap in ((I(8, 1), 'quick', 900), (I(8, 2), 'thorough', 3600)):
     for md, mode in (('ok', 'dbg'), ('panic', 'dbg'), ('rel', 'rel')):
-        add(H('C04', f"c04_mul_ops_{md}_{i.tag}", 'c04_mul_ops', f"{i.n + 3}, {i.std().rsplit(',', 1)[0]}, {md}", tier=tier, mode=mode, inst=i.label, cap=cap,
+        add(H('C04', f"c04_mul_ops_{md}_{i.tag}", 'c04_mul_ops', f"36, {i.std().rsplit(',', 1)[0]}, {md}", tier=tier, mode=mode, inst=i.label, cap=cap,
               kind='panic' if md == 'panic' else 'normal', core=False,
               funcs=f'operator *, pow, next_multiple_of (BUint, BInt) ({md})', bound='all operands, exponent over all of u32'))
-for i, tier in ((I(8, 1), 'quick'), (I(8, 2), 'quick'), (I(16, 2), 'thorough'), (I(64, 2), 'thorough')):
+for i, tier in ((I(8, 1), 'quick'), (I(8, 2), 'thorough'), (I(16, 2), 'thorough'), (I(64, 2), 'thorough')):
     for mode in ('dbg', 'rel'):
-        add(H('C04', f"c04_div_log_panic_{i.tag}", 'c04_div_log_panic', f"{i.n + 3}, {i.std().rsplit(',', 1)[0]}", tier=tier, mode=mode, inst=i.label, kind='panic', cap=1800,
-              core=(i.bits <= 16),
+        add(H('C04', f"c04_div_log_panic_{i.tag}", 'c04_div_log_panic', f"{i.n + 3}, {i.std().rsplit(',', 1)[0]}", tier=tier, mode=mode, inst=i.label, kind='panic', cap=3600, mem_gb=30,
+              core=(i.bits <= 8),
               funcs='zero divisor through / % and every non-checked division method; MIN / -1, MIN % -1; ilog2/ilog10/ilog of non-positive values or base < 2',
               bound='all operands satisfying the must-panic predicate'))
 for i, what, tier in ((I(8, 1), 'full', 'quick'), (I(8, 3), 'lin', 'quick'), (I(64, 2), 'lin', 'quick'), (I(8, 2), 'full', 'thorough'),
                       (I(16, 3), 'lin', 'thorough'), (I(32, 2), 'lin', 'thorough'), (I(64, 3), 'lin', 'thorough'), (I(64, 5), 'lin', 'thorough')):
     for mode in ('dbg', 'rel'):
-        add(H('C04', f"c04_nopanic_{what}_{i.tag}", 'c04_nopanic', f"{i.n + 3}, {i.std().rsplit(',', 1)[0]}, {what}", tier=tier, mode=mode, inst=i.label, cap=1800,
+        add(H('C04', f"c04_nopanic_{what}_{i.tag}", 'c04_nopanic', f"{36 if what == 'full' else i.n + 3}, {i.std().rsplit(',', 1)[0]}, {what}", tier=tier, mode=mode, inst=i.label, cap=1800,
               core=(what == 'lin'),
               funcs='checked_* never panic; wrapping_/overflowing_/saturating_ (non-dividing) never panic' + (' (incl. mul, div, rem, pow, ilog)' if what == 'full' else ' (linear-cost methods)'),
               bound='completely unconstrained arguments: shift amounts / exponents over all of u32, zero divisors, MIN / -1'))
@@ -365,10 +376,6 @@ for tier, insts in (('quick', C17_Q), ('thorough', C17_T)):
                 add(H('C17', f"c17_lin_{md}_{sg}_{i.tag}", 'c17_binops', f"{i.n + 2}, {T}, {i.digit}, {i.n}, lin, 5, {md}", tier=tier, inst=i.label,
                       kind='panic' if md == 'panic' else 'normal',
                       funcs=f"{nm} Add/Sub/BitAnd/BitOr/BitXor: v op v, &v op v, v op &v, &v op &v, op=, op= &, const twin ({md})", bound='all operand pairs, all 7 forms'))
-            add(H('C17', f"c17_shift_forms_{sg}_{i.tag}", 'c17_shift_forms', f"{i.n + 2}, {T}, {i.digit}, {i.n}", tier=tier, inst=i.label, cap=900,
-                  funcs=f"{nm} Shl/Shr reference and assign forms for the 12 primitive amount types", bound='all values, all in-range amounts'))
-            add(H('C17', f"c17_shift_forms_panic_{sg}_{i.tag}", 'c17_shift_forms_panic', f"{i.n + 2}, {T}, {i.digit}, {i.n}", tier=tier, inst=i.label, cap=900, kind='panic',
-                  funcs=f"{nm} Shl/Shr reference and assign forms panic for out-of-range amounts of the 12 primitive amount types", bound='all values, all out-of-range amounts'))
             for m in (1, 2):
                 AU, AI = Inst(i.digit, m).U, Inst(i.digit, m).I
                 add(H('C17', f"c17_shift_bnum_{sg}_{i.tag}_m{m}", 'c17_shift_bnum', f"{i.n + 3}, {T}, {i.digit}, {i.n}, {AU}, {AI}, {i.digit}, {m}", tier=tier, inst=i.label, cap=900,
@@ -378,6 +385,13 @@ for tier, insts in (('quick', C17_Q), ('thorough', C17_T)):
         add(H('C17', f"c17_unary_{i.tag}", 'c17_unary', f"{i.n + 2}, {i.U}, {i.I}, {i.digit}, {i.n}", tier=tier, inst=i.label, funcs='Not, Neg (value and reference), Default', bound='all values'))
         add(H('C17', f"c17_digit_add_{i.tag}", 'c17_digit_ops', f"{i.n + 2}, {i.U}, {i.digit}, {i.n}, any, false", tier=tier, inst=i.label,
               funcs='BUint + digit', bound='all values and digits with a representable sum'))
+for i, tier, cap in ((I(8, 1), 'quick', 900), (I(64, 1), 'quick', 900), (I(8, 3), 'thorough', 5400), (I(64, 2), 'thorough', 5400)):
+    for sg, T in (('u', i.U), ('i', i.I)):
+        nm = 'BUint' if sg == 'u' else 'BInt'
+        add(H('C17', f"c17_shift_forms_{sg}_{i.tag}", 'c17_shift_forms', f"{i.n + 2}, {T}, {i.digit}, {i.n}", tier=tier, inst=i.label, cap=cap, core=(tier == 'quick'), mem_gb=24,
+              funcs=f"{nm} Shl/Shr reference and assign forms for the 12 primitive amount types", bound='all values, all in-range amounts'))
+        add(H('C17', f"c17_shift_forms_panic_{sg}_{i.tag}", 'c17_shift_forms_panic', f"{i.n + 2}, {T}, {i.digit}, {i.n}", tier=tier, inst=i.label, cap=cap, kind='panic', core=(tier == 'quick'), mem_gb=24,
+              funcs=f"{nm} Shl/Shr reference and assign forms panic for out-of-range amounts of the 12 primitive amount types", bound='all values, all out-of-range amounts'))
 for i, tier, cap in ((I(8, 1), 'quick', 900), (I(8, 2), 'thorough', 3600)):
     for sg, T in (('u', i.U), ('i', i.I)):
         for md in ('ok', 'panic'):
@@ -400,9 +414,11 @@ both('C18', 'c18_forward_lin', [I(8, 1), I(8, 3), I(64, 1), I(64, 2)], [I(16, 2)
 both('C18', 'c18_signed', [I(8, 1), I(8, 3), I(64, 2)], [I(16, 2), I(32, 3), I(64, 3)], signs=('i',), group='Signed: abs, abs_sub, signum, is_positive, is_negative')
 for i, tier, cap, steps in ((I(8, 1), 'quick', 1200, 13), (I(8, 2), 'thorough', 7200, 24), (I(16, 1), 'thorough', 7200, 24)):
     for sg, T in (('u', i.U), ('i', i.I)):
-        add(H('C18', f"c18_integer_{sg}_{i.tag}", 'c18_integer', f"{max(steps, 2 * i.bits) + 4}, {T}, {i.digit}, {i.n}, {steps}", tier=tier, cap=cap, inst=i.label,
+        add(H('C18', f"c18_gcd_{sg}_{i.tag}", 'c18_gcd', f"{steps + 2}, {T}, {i.digit}, {i.n}, {steps}", tier=tier, cap=cap, inst=i.label, core=False, mem_gb=28,
+              funcs=f"{'BUint' if sg == 'u' else 'BInt'} Integer::gcd / lcm", bound='all operand pairs; Euclid oracle'))
+        add(H('C18', f"c18_integer_{sg}_{i.tag}", 'c18_integer', f"{i.n + 4}, {T}, {i.digit}, {i.n}", tier=tier, cap=cap, inst=i.label, mem_gb=28,
               core=(i.bits == 8),
-              funcs=f"{'BUint' if sg == 'u' else 'BInt'} CheckedMul/Div/Rem, CheckedEuclid, Euclid, SaturatingMul, WrappingMul, Pow, MulAdd, Integer::div_floor/mod_floor/div_rem/gcd/lcm/divides/is_multiple_of",
+              funcs=f"{'BUint' if sg == 'u' else 'BInt'} CheckedMul/Div/Rem, CheckedEuclid, Euclid, SaturatingMul, WrappingMul, Pow, MulAdd, Integer::div_floor/mod_floor/div_rem/divides/is_multiple_of",
               bound='all operand pairs; exact i32 oracle'))
 for i, tier in ((I(8, 1), 'quick'), (I(8, 3), 'quick'), (I(64, 2), 'quick'), (I(64, 3), 'thorough'), (I(8, 17), 'thorough')):
     add(H('C18', f"c18_roots_trivial_{i.tag}", 'c18_roots_trivial', f"{i.n + 3}, {i.std().rsplit(',', 1)[0]}", tier=tier, inst=i.label, cap=900, core=False,
